@@ -153,6 +153,7 @@ func (s *KeyStore) pushNewRingState(ring *KeyRing) error {
 const (
 	keyringSuffix = ".keyring"
 	newSuffix     = ".new"
+	staleSuffix   = ".stale"
 )
 
 func (s *KeyStore) fetchASNring(path string) ([]byte, error) {
@@ -167,6 +168,15 @@ func (s *KeyStore) pushASNring(data []byte, path string) (err error) {
 	curPath := path + keyringSuffix
 	newPath := path + keyringSuffix + newSuffix
 	err = s.fs.Put(newPath, data)
+	if err == backend.ErrExist {
+		// A leftover of an earlier write that was interrupted between Put and Rename (a crash or an I/O error).
+		// We hold the exclusive store lock, so nobody else is writing: set the leftover aside and retry,
+		// otherwise this key ring could never be written again.
+		if err = s.fs.Rename(newPath, newPath+staleSuffix); err != nil {
+			return err
+		}
+		err = s.fs.Put(newPath, data)
+	}
 	if err != nil {
 		return err
 	}
